@@ -90,6 +90,8 @@ void oracle_c05_provenance(World &w, const History &)
   }
 }
 
+static bool looked_at(const World &w, const Packet &p, const Transmission **cur_out); // defined with the C17 oracle
+
 // ---------------------------------------------------------------------------
 // C06: bounded retries, timeout window
 // ---------------------------------------------------------------------------
@@ -119,6 +121,52 @@ void oracle_c06_retry(World &w, const History &h)
                     kv.second.size(), nsrv, w.cfg->tries, std::min(1, n_formerr), std::min(1, n_tc), std::min(3, n_bad), bound));
     if (kv.second.size() > 1) w.W("c06_retransmission");
     if ((long)kv.second.size() == (long)nsrv * w.cfg->tries) w.W("c06_budget_exhausted");
+  }
+  // protocol-mandated resends must actually happen: a truncated UDP answer the library looked at (truncation not
+  // ignored) is followed by a TCP transmission of the same query, whatever the retry policy says about that query.
+  // Judged only in histories without injected socket faults and server-list edits (the TCP attempt may then
+  // legitimately fail or move).
+  {
+    bool clean = !(w.cfg->flags & ARES_FLAG_IGNTC);
+    for (auto &e : h)
+      if (e.k == EV_FAULT || e.k == EV_SETSERVERS || e.k == EV_CANCEL || e.k == EV_DESTROY) clean = false;
+    if (clean)
+      for (auto &p : w.packets) {
+        if (p.forged || p.kind != RK_TC || p.seq_read < 0 || p.for_tx < 0) continue;
+        const Transmission &ptx = w.txs[(size_t)p.for_tx];
+        if (ptx.tcp || !ptx.q.ok || ptx.q.has_cookie) continue; // with a cookie in play a cookie-less answer may be dropped by the RFC 7873 rules (C17)
+        const Transmission *cur = nullptr;
+        if (!looked_at(w, p, &cur)) continue;
+        // a request may consist of several queries (dual-family lookup): whether THIS query was still alive when the
+        // packet was read is only certain if nothing else was read for its id before and its budget was not used up
+        bool earlier_read = false;
+        int  ntx_before   = 0;
+        for (auto &o : w.packets)
+          if (&o != &p && !o.forged && o.seq_read >= 0 && o.seq_read < p.seq_read && o.for_tx >= 0 && w.txs[(size_t)o.for_tx].q.ok && w.txs[(size_t)o.for_tx].q.id == ptx.q.id) earlier_read = true;
+        for (auto &t : w.txs)
+          if (t.q.ok && t.q.id == ptx.q.id && t.seq < p.seq_read) ntx_before++;
+        if (earlier_read || ntx_before >= nsrv * w.cfg->tries || cur->id != ptx.id) continue;
+        // the request this query belongs to: the one request that was outstanding when the id first appeared; it must
+        // still be outstanding when the packet is read (otherwise the packet met no query)
+        long first_seq = -1;
+        for (auto &t : w.txs)
+          if (t.q.ok && t.q.id == ptx.q.id && (first_seq < 0 || t.seq < first_seq)) first_seq = t.seq;
+        const Token *owner = nullptr;
+        int          cands = 0;
+        for (auto &tk : w.toks)
+          if (tk.seq_issue < first_seq && (tk.count == 0 || tk.seq_done > first_seq)) {
+            owner = &tk;
+            cands++;
+          }
+        if (cands != 1 || !(owner->count == 0 || owner->seq_done > p.seq_read)) continue;
+        bool tcp_follows = false;
+        for (auto &t : w.txs)
+          if (t.q.ok && t.q.id == ptx.q.id && t.tcp && t.seq > p.seq_read) tcp_follows = true;
+        if (!tcp_follows)
+          w.violate("C06:mandated:truncated-answer-without-tcp-resend", fmt("query id %u read a truncated UDP answer (packet #%d) but was never transmitted over TCP afterwards", ptx.q.id, p.serial));
+        else
+          w.W("c06_tc_upgrade_seen");
+      }
   }
   // an EV_ADVANCE moves the clock without letting the application process timers: a gap that spans one says nothing
   // about the timeout the library chose
@@ -237,7 +285,6 @@ void oracle_c08_cache_end(World &w, const History &)
 }
 
 
-static bool looked_at(const World &w, const Packet &p, const Transmission **cur_out); // defined with the C17 oracle
 
 // first transmission index of the (single) wire query a simple request token started
 static int first_tx_of(const World &w, const Token &t)
